@@ -183,3 +183,95 @@ func c18Tables(c *mc.Check, n int) {
 	f.Sample(c18TCase{n, []int{1, 3, 0, 2}, DUPE_REPLACE})
 	f.Done()
 }
+
+// ---- experiment stamps in different spellings ----
+//
+// "The latest experiment wins" is about instants, not about the text of the
+// stamps: the compact form sorts after every RFC 3339 stamp as a string, and
+// stamps with different zone offsets do not sort chronologically either.
+
+var c18StampPools = [][]c18Res{
+	{ // older experiment written compactly, later one in RFC 3339
+		{"A", "20200101T000000", "baseline", "h1", s1, map[string]float64{"u1": 10}},
+		{"A", "20200101T000000", "experiment", "h1", s1, map[string]float64{"u1": 11}},
+		{"A", "2020-02-01T00:00:00Z", "baseline", "h1", s1, map[string]float64{"u1": 20}},
+		{"A", "2020-02-01T00:00:00Z", "experiment", "h1", s1, map[string]float64{"u1": 21}},
+		{"B", "2020-02-01T00:00:00Z", "experiment", "h1", s1, map[string]float64{"u1": 31}},
+	},
+	{ // zone offsets: 23:00-05:00 on the 9th is later than 01:00+00:00 on the 10th
+		{"A", "2022-01-10T01:00:00+00:00", "baseline", "h1", s1, map[string]float64{"u1": 10}},
+		{"A", "2022-01-10T01:00:00+00:00", "experiment", "h1", s1, map[string]float64{"u1": 11}},
+		{"A", "2022-01-09T23:00:00-05:00", "baseline", "h1", s1, map[string]float64{"u1": 20}},
+		{"A", "2022-01-09T23:00:00-05:00", "experiment", "h1", s1, map[string]float64{"u1": 21}},
+		{"B", "2022-01-10T01:00:00+00:00", "experiment", "h1", s1, map[string]float64{"u1": 31}},
+	},
+	{ // fractional seconds against whole seconds, later one compact
+		{"A", "2021-06-01T12:00:00.5Z", "baseline", "h1", s1, map[string]float64{"u1": 10}},
+		{"A", "2021-06-01T12:00:00.5Z", "experiment", "h1", s1, map[string]float64{"u1": 11}},
+		{"A", "20210601T120001", "baseline", "h1", s1, map[string]float64{"u1": 20}},
+		{"A", "20210601T120001", "experiment", "h1", s1, map[string]float64{"u1": 21}},
+		{"A", "2021-06-01T12:00:00Z", "experiment", "h1", s1, map[string]float64{"u1": 5}},
+	},
+}
+
+type c18SCase struct {
+	Pool  int
+	Order []int
+	Dupe  int
+}
+
+func c18Stamps(c *mc.Check) {
+	check := func(cs c18SCase) string {
+		p := c18StampPools[cs.Pool]
+		got, err := c18Build(p, cs.Order, cs.Dupe)
+		if err != nil {
+			return err.Error()
+		}
+		if want := refSeries(p, cs.Dupe); maskMixed(got, want) != want {
+			return fmt.Sprintf("pool %d order %v policy %d:\n%s\nexpected (set semantics, experiments ordered by instant):\n%s", cs.Pool, cs.Order, cs.Dupe, got, want)
+		}
+		return ""
+	}
+	replay := func(raw json.RawMessage) string {
+		var cs c18SCase
+		json.Unmarshal(raw, &cs)
+		var msg string
+		if p := mc.Catch(func() { msg = check(cs) }); p != "" {
+			return p
+		}
+		return msg
+	}
+	f := c.Family("experiment-stamp-spellings", fmt.Sprintf("%d pools of 5 results in which one point is measured by two or three experiments whose stamps do not sort as strings the way they sort in time (compact form against RFC 3339, different zone offsets, fractional against whole seconds): every one of the 5! insertion orders × {replace, combine}: the canonical dump equals the set-semantics reference, in which the latest experiment BY INSTANT wins; non-trivial = every order", len(c18StampPools)), replay)
+	if c.Replaying() {
+		return
+	}
+	var cases []c18SCase
+	for pi := range c18StampPools {
+		mc.Permutations(5, func(perm []int) bool {
+			for _, d := range []int{DUPE_REPLACE, DUPE_COMBINE} {
+				cases = append(cases, c18SCase{pi, append([]int{}, perm...), d})
+			}
+			return true
+		})
+	}
+	mc.ParRange(uint64(len(cases)), 16, c.TimeUp, func(w int, lo, hi uint64) {
+		l := f.Local()
+		for i := lo; i < hi; i++ {
+			var msg string
+			if p := mc.Catch(func() { msg = check(cases[i]) }); p != "" {
+				msg = p
+			}
+			l.Evals++
+			l.Nontrivial++
+			if msg != "" {
+				l.Outcome("differs")
+				c.Fail(f, "stamp-spelling", cases[i], msg)
+			} else {
+				l.Outcome(fmt.Sprintf("policy-%d-same", cases[i].Dupe))
+			}
+		}
+		l.Flush()
+	})
+	f.Sample(c18SCase{0, []int{2, 3, 0, 1, 4}, DUPE_REPLACE})
+	f.Done()
+}
